@@ -1515,6 +1515,23 @@ M("SEED-C17-h", ["C17"], [("@patch", "seeded/C17-h/patch.diff", "")], ["C17/used
 M("SEED-C18-h", ["C18"], [("@patch", "seeded/C18-h/patch.diff", "")], ["C18/final-ack/PubComp/remove-then-report"])
 M("SEED-C19-h", ["C19"], [("@patch", "seeded/C19-h/patch.diff", "")], ["C19/qos/per-connection/max_qos"])
 M("SEED-C20-h", ["C20"], [("@patch", "seeded/C20-h/patch.diff", "")], ["C20/target/reply_owned"])
+M("SEED-C02-i", ["C02"], [("@patch", "seeded/C02-i/patch.diff", "")], ["C02/store/set_written"])
+M("SEED-C04-i", ["C04"], [("@patch", "seeded/C04-i/patch.diff", "")], ["C04/once/deliver-implies-recorded"])
+M("SEED-C06-i", ["C06"], [("@patch", "seeded/C06-i/patch.diff", "")], ["C06/init/connack-walk-complete"])
+M("SEED-C08-i", ["C08"], [("@patch", "seeded/C08-i/patch.diff", "")], ["C08/varint/reader-probe"])
+M("SEED-C09-i", ["C09"], [("@patch", "seeded/C09-i/patch.diff", "")], ["C09/connect/max-packet-size"])
+M("SEED-C10-i", ["C10"], [("@patch", "seeded/C10-i/patch.diff", "")], ["C10/const/server-keepalive-honoured"])
+M("SEED-C12-i", ["C12"], [("@patch", "seeded/C12-i/patch.diff", "")], ["C12/fit/exact/push_bytes"])
+M("SEED-C13-i", ["C13"], [("@patch", "seeded/C13-i/patch.diff", "")], ["C13/store/set_written"])
+M("SEED-C14-i", ["C14"], [("@patch", "seeded/C14-i/patch.diff", "")], ["C14/adv/connect-property"])
+M("SEED-C15-i", ["C15"], [("@patch", "seeded/C15-i/patch.diff", "")], ["C15/store/set_written"])
+M("SEED-C17-i", ["C17"], [("@patch", "seeded/C17-i/patch.diff", "")], ["C17/quota/per-connection/max_send_quota"])
+M("SEED-C18-i", ["C18"], [("@patch", "seeded/C18-i/patch.diff", "")], ["C18/status/table"])
+M("SEED-C19-i", ["C19"], [("@patch", "seeded/C19-i/patch.diff", "")], ["C19/value/UserProperty"])
+M("SEED-C20-i", ["C20"], [("@patch", "seeded/C20-i/patch.diff", "")], ["C20/len16/BinaryData"])
+M("C09-push-off-by-one", ["C09", "C12"], [("src/ser/mod.rs", "if self.buf.len().saturating_sub(self.index) < 1 {", "if self.buf.len().saturating_sub(self.index) <= 1 {")], ["C09/fit/exact/push", "C12/fit/exact/push"])
+M("C09-commit-off-by-one", ["C09"], [("src/ser/mod.rs", "if self.buf.len().saturating_sub(self.index) < len {", "if self.buf.len().saturating_sub(self.index) <= len {")], ["C09/fit/exact/commit"])
+M("C09-push-bytes-bound-ignores-index", ["C09"], [("src/ser/mod.rs", "if self.buf.len().saturating_sub(self.index) < data.len() {", "if self.buf.len() < data.len() {")], ["C09/fit/exact/push_bytes"])
 
 # third round: property-centred behaviour-preserving refactorings (five per property, around that property's anchors)
 for _p in sorted(_glob.glob(_os.path.join(_os.path.dirname(_os.path.abspath(__file__)), "refactors", "rf3", "*.diff"))):
@@ -1550,6 +1567,12 @@ M("C08-u32-bytes-reversed", ["C08"], [(DESER, "visitor.visit_u32(u32::from_be_by
 M("C09-varint-encoder-step-8", ["C09", "C01"], [(VARINT, "        value >>= 7;\n        if value != 0 {\n            byte |= 0x80;", "        value >>= 8;\n        if value != 0 {\n            byte |= 0x80;")], ["C09/varint/encoder/step", "C01/varint/encoder/step"])
 M("C09-varint-encoder-mask-ff", ["C09"], [(VARINT, "let mut byte = (value & 0x7F) as u8;", "let mut byte = (value & 0xFF) as u8;")], ["C09/varint/encoder/group"])
 M("C09-varint-encoder-continuation-always", ["C09"], [(VARINT, "        if value != 0 {\n            byte |= 0x80;\n        }\n        out.push(byte)?;", "        byte |= 0x80;\n        out.push(byte)?;")], ["C09/varint/encoder/continuation"])
+M("C08-varint-reader-mask-3f", ["C08"], [(VARINT, "let part = (byte & 0x7F) as u32;", "let part = (byte & 0x3F) as u32;")], ["C08/varint/reader/value/group"])
+M("C08-varint-reader-no-accumulate", ["C08"], [(VARINT, "value |= part << shift;", "value = part << shift;")], ["C08/varint/reader/value/accumulate"])
+M("C08-varint-reader-shift-of-byte", ["C08"], [(VARINT, "value |= part << shift;", "value |= (byte as u32) << shift;")], ["C08/varint/reader/value/shift"])
+M("C08-varint-probe-index-times-8", ["C08"], [(READER_RS, "<< (index * 7);", "<< (index * 8);")], ["C08/varint/reader/remaining-length/shift"])
+M("C08-varint-probe-terminator-mask", ["C08"], [(READER_RS, "if (value & 0x80) == 0 {", "if (value & 0xC0) == 0 {")], ["C08/varint/reader/remaining-length/group"])
+M("C08-varint-probe-no-accumulate", ["C08"], [(READER_RS, "packet_length += ((value & 0x7F) as usize) << (index * 7);", "packet_length = ((value & 0x7F) as usize) << (index * 7);")], ["C08/varint/reader/remaining-length/accumulate"])
 M("RFM-predicates-pending-ignores-generation", ["C18"], [("@patch", "selftest/mutants_rf/predicates-pending-ignores-generation.diff", "")], ["C18/status/table"])
 
 # fourth round: organisational refactorings (guard clauses, sub-borrows, loop forms, private structs, generic helpers)
@@ -1596,7 +1619,7 @@ KNOWN_LIMITS = {
     "RF5-C15-01-reader-length-flag": ("`packet_length: Option<usize>` becomes value + flag (anchored state)", ["C08/", "C12/", "C14/", "C15/"]),
     "RF5-C17-02-arena-struct": ("`Outbound::{buf, used}` (anchored state of C17) grouped into a private `Arena` struct", ["C01/", "C02/", "C12/", "C17/"]),
     "RF5-C18-04-generation-in-outbound": ("the generation counter (anchored state of C05/C18) moves from SessionData into Outbound", ["C05/", "C18/"]),
-    "RF5-C09-02-ser-body-len-cursor": ("`MqttSerializer::index` (anchored state of C01.len) replaced by a body-length counter", ["C01/len/"]),
+    "RF5-C09-02-ser-body-len-cursor": ("`MqttSerializer::index` (anchored state of C01.len and of the exact-fit clause) replaced by a body-length counter", ["C01/len/", "C09/fit/exact/", "C12/fit/exact/"]),
     "RF6-C17-h-repaired": ("the space needed after compaction is kept in a counter field (`retained_bytes`, maintained by the enqueue, the removal and "
                            "`clear()`) instead of being summed from the entries: the free-space clauses demand a function of the entries alone "
                            "(anchored representation; the seed it repairs forgets the reset in `clear()` and fails the same clauses)",
@@ -1626,13 +1649,17 @@ KNOWN_LIMITS = {
     'RF6-C12-b-repaired': ('the length probe becomes incremental with two new reader fields: new arithmetic / indexing sites on the inbound path have no entry in the panic-site discharge table (reported by design)',
         ['C08/panic/', 'C08/varint/reader-probe']),
     'RF6-C15-c-repaired': ('the write step carries only the unsent tail (`pending`) and the recorded progress is `len - pending + written`: a re-representation of the (bytes, written, len) triple the write clauses compare',
-        ['C01/store/step-accumulates', 'C04/store/step-accumulates', 'C13/store/step-accumulates', 'C15/store/step-accumulates', 'C15/write/']),
+        ['C01/store/step-accumulates', 'C02/store/step-accumulates', 'C02/write/', 'C04/store/step-accumulates', 'C13/store/step-accumulates', 'C15/store/step-accumulates', 'C15/write/']),
+    'RF6-C04-i-repaired': ('the capacity test is made up front with `is_full()` and the result of the push is then discarded (`let _ = push(..)`, "cannot fail"): that the push succeeds follows from an invariant of heapless::Vec the rule does not model -- it accepts a delivery only over the success edge of the recording call',
+        ['C04/once/deliver-implies-recorded']),
+    'RF6-C13-i-repaired': ('`set_written(written, len)` becomes `advance(count, len)`: the running total is formed inside the state machine from its own recorded value instead of by the caller -- a re-representation of the recorded quantity the store clauses compare',
+        ['C01/store/', 'C02/store/', 'C04/store/', 'C13/store/', 'C15/store/']),
     'RF6-C17-c-repaired': ('`ack_packet` closes the hole itself with a `close_hole` helper (`copy_within` + `used` update) instead of calling `compact()`: a new writer of arena bytes and of `used` (who-may-write rules report it by design)',
         ['C01/used/writer', 'C01/writers/', 'C02/used/writer', 'C02/writers/', 'C12/used/writer', 'C17/used/writer', 'C17/writers/']),
     # round 7: documented limits
     "RF7-G02-01-written-progress-combinators": ("`SendState::set_written(&mut self, written, len)` becomes a pure constructor `after_write(written, len) -> Self` "
                                                 "(a new function, folded into the three setters): the anchor of the `store` group is gone",
-                                                ["C01/ANCHOR-LOST/store/", "C04/ANCHOR-LOST/store/", "C13/ANCHOR-LOST/store/", "C15/ANCHOR-LOST/store/"]),
+                                                ["C01/ANCHOR-LOST/store/", "C02/ANCHOR-LOST/resume/", "C04/ANCHOR-LOST/store/", "C13/ANCHOR-LOST/store/", "C15/ANCHOR-LOST/store/"]),
     "RF7-G04-03-connect-event-as-session-flag": ("the `resumed` flag is replaced by the ConnectEvent computed once and returned through `match event { .. } Ok(event)`: "
                                                  "the event table is read from the two `Ok(ConnectEvent::..)` constructions", ["C05/reset/event"]),
     "RF7-G07-04-status-as-option-bool": ("`Session::status` returns `Option<bool>` and the `OpStatus` enum is deleted (anchored representation of the verdict)",
